@@ -29,8 +29,8 @@ TAbort == IsEvent("abort") /\ UNCHANGED vars
 \* store calls: the caller is not recorded; the specification finds the goroutine that can be making the call
 TGetPending  == IsEvent("GetPending") /\ R.res = "ok" /\ Range(R.ts) = Pending /\ BootGet
 TGetFailed   == IsEvent("GetFailed") /\ R.res = "ok" /\ Range(R.ts) = Failed /\ PGet
-TAddPending  == IsEvent("AddPending") /\ \E a \in Adders : ad[a].t = R.task /\ ad[a].ready /\ R.res = AStoreRes(a) /\ AStore(a)
-TAddFailed   == IsEvent("AddFailed") /\ \E a \in Adders : ad[a].t = R.task /\ ~ad[a].ready /\ R.res = AStoreRes(a) /\ AStore(a)
+TAddPending  == IsEvent("AddPending") /\ \E a \in Adders : ad[a].t = R.task /\ R.res = AStoreRes(a) /\ AStore(a, TRUE)
+TAddFailed   == IsEvent("AddFailed") /\ \E a \in Adders : ad[a].t = R.task /\ R.res = AStoreRes(a) /\ AStore(a, FALSE)
 TMarkPending == IsEvent("MarkPending") /\ R.res = "ok" /\ PMark(R.task)
 TMarkFailed  == /\ IsEvent("MarkFailed") /\ R.res = "ok"
                 /\ \/ BootMark(R.task)
@@ -48,7 +48,7 @@ TExecEnd   == /\ IsEvent("ExecEnd")
               /\ \/ \E w \in Workers : wk[w].t = R.task /\ WExecEnd(w, R.ok)
                  \/ \E s \in Syncers : sx[s].t = R.task /\ SxEnd(s, R.ok)
 
-TAdd      == IsEvent("Add") /\ AddCall(R.a, R.task, R.ready)
+TAdd      == IsEvent("Add") /\ AddCall(R.a, R.task)
 TAddRet   == IsEvent("AddRet") /\ ad[R.a].t = R.task /\ ad[R.a].res = R.res /\ ARet(R.a)
 TSync     == IsEvent("SyncExec") /\ SxCall(R.s, R.task)
 TSyncRet  == IsEvent("SyncExecRet") /\ sx[R.s].res = R.res /\ SxRet(R.s)
